@@ -3,7 +3,7 @@
 use crate::driver::{fail, Ctx, PResult, Property, Tier};
 use crate::gen::func::*;
 use crate::gen::inst::*;
-use crate::props::c05::{describe_inst, fp_instance, place_constraint_value, sorted_state};
+use crate::props::c05::{add_big_linear, describe_inst, fp_instance, place_constraint_value, sorted_state};
 use crate::tape::Tape;
 use ommx::v1;
 use ommx::Evaluate;
@@ -117,7 +117,7 @@ impl Property for C06 {
          oracle = Instance::evaluate of each state alone (tied to the reference model by C05) + key-set and re-grouping invariance; non-trivial = >=2 ids and (shared entry or duplicate state across entries or equal values from different states); distinct = sha256(instance, pairs, grouping)"
     }
     fn required_labels(&self) -> Vec<String> {
-        ["multi-id-entry", "dup-state-separate-entries", "value-collision", "omits-irrelevant", "omits-different-subsets", "add_sample", "n>=4", "dependency", "removed-constraint", "fixed-variable", "state-has-stale-value-of-fixed-variable", "unset-oneof"].iter().map(|s| s.to_string()).collect()
+        ["multi-id-entry", "dup-state-separate-entries", "value-collision", "omits-irrelevant", "omits-different-subsets", "add_sample", "n>=4", "dependency", "removed-constraint", "fixed-variable", "state-has-stale-value-of-fixed-variable", "unset-oneof", "big-linear-function"].iter().map(|s| s.to_string()).collect()
     }
     fn cases(&self, tier: Tier) -> usize {
         match tier {
@@ -142,6 +142,7 @@ impl Property for C06 {
         let masks: Vec<u16> = (0..8).map(|_| t.u16()).collect();
         // which states still carry an (in-bound, stale) value for a variable that an earlier partial evaluation fixed
         let stale_mask = if t.p(96) { t.byte() } else { 0 };
+        let big = if t.p(8) { Some((*t.pick(&SIZES), t.byte() as u64)) } else { None };
         let mut cfg = InstCfg::new(regime);
         cfg.tolerance_candidates = true;
         // a present function message whose oneof is unset evaluates to zero (C01) -- for every sample alike
@@ -178,6 +179,17 @@ impl Property for C06 {
                 }
             }
             pairs.push((ids[i], st));
+        }
+        if let Some((bn, seed)) = big {
+            // a linear function over many variables; every state gets its own values for them
+            let mut scratch = v1::State::default();
+            add_big_linear(&mut gi.inst, &mut scratch, bn, seed);
+            for (k, p) in pairs.iter_mut().enumerate() {
+                for i in 0..bn as u64 {
+                    p.1.entries.insert(5000 + i, derived_value(seed.wrapping_add(k as u64 % 3), i));
+                }
+            }
+            ctx.label("big-linear-function");
         }
         if omit_irrelevant && !gi.irrelevant.is_empty() {
             ctx.label("omits-irrelevant");
